@@ -3,6 +3,7 @@ package ksw
 import (
 	"bytes"
 	"fmt"
+	"strings"
 	"time"
 
 	"verif/sim/kernel"
@@ -24,8 +25,35 @@ type Session struct {
 	fresh   bool                       // nothing cached since last reset/reopen
 	offered map[string]map[string]bool // ring id -> secrets this handle offered since last reset
 	relaxed map[string]bool            // rings that may carry a fault residue (C08)
+	broken  map[string]bool            // rings whose victim key was found to be a mixture (reported once)
 	faulted bool                       // a fault has fired in this run
 	markerN int
+	inApply     bool
+	opFiredBase int
+	// touchedEmpty: an operation other than generate was issued on a key
+	// that was never generated. Keystore v2 then leaves an empty key ring
+	// behind, which makes key listing fail; the listing rules of C06/C08 are
+	// not stated for that situation and are not gated on afterwards (it is
+	// recorded as a probe instead).
+	touchedEmpty bool
+	obs     *Handle // cache-less observer on the same disk, outside the event log
+}
+
+// observer returns a handle without cache and without faults whose storage
+// calls are not part of the run's event log. It is used to learn the value of
+// a freshly generated key when the session's own handle has a warm cache
+// (which may legitimately serve older keys until it is reset).
+func (s *Session) observer() *Handle {
+	if s.obs == nil {
+		scratch := kernel.NewWorld(&kernel.Plan{}, false)
+		scratch.MaxSteps = 1 << 60
+		h, err := Open(scratch, 0, s.Disk, -1)
+		if err != nil {
+			panic(fmt.Sprintf("observer open: %v", err))
+		}
+		s.obs = h
+	}
+	return s.obs
 }
 
 // Op kinds understood by Session.
@@ -45,7 +73,7 @@ const (
 // NewSession opens the first handle.
 func NewSession(w *kernel.World, prop string, proc int, d *Disk, m *Model, cache int) (*Session, error) {
 	s := &Session{W: w, Prop: prop, Proc: proc, Disk: d, M: m, Cache: cache, fresh: true,
-		offered: map[string]map[string]bool{}, relaxed: map[string]bool{}, lastMut: "start"}
+		offered: map[string]map[string]bool{}, relaxed: map[string]bool{}, broken: map[string]bool{}, lastMut: "start"}
 	h, err := Open(w, proc, d, cache)
 	if err != nil {
 		return nil, err
@@ -64,10 +92,58 @@ func shape(kind string) string {
 }
 
 func (s *Session) site(kind string) string {
-	return fmt.Sprintf("%s/%s/after-%s", s.fmtName(), shape(kind), s.lastMut)
+	return fmt.Sprintf("%s/%s", s.fmtName(), shape(kind))
 }
 
-func (s *Session) violate(rule, site, detail string) { s.W.Violate(s.Prop, rule, site, detail) }
+func (s *Session) violate(rule, site, detail string) {
+	if s.inApply && rule != "no-panic" && totalFired(s.W) > s.opFiredBase {
+		// the operation is running under an injected fault: its failure is the
+		// fault's doing; what it left behind is judged by reconcile/CheckAll
+		s.W.Probe("failure-under-fault")
+		return
+	}
+	s.W.Violate(s.Prop, rule, site, detail)
+}
+
+// slug turns an error text into a short stable token for site signatures.
+func slug(err error) string {
+	if err == nil {
+		return "nil"
+	}
+	msg := err.Error()
+	if i := strings.LastIndex(msg, ": "); i >= 0 {
+		msg = msg[i+2:] // the innermost cause, without paths
+	}
+	var sb strings.Builder
+	for _, c := range strings.ToLower(msg) {
+		switch {
+		case c >= 'a' && c <= 'z':
+			sb.WriteRune(c)
+		case sb.Len() > 0 && sb.String()[sb.Len()-1] != '-':
+			sb.WriteByte('-')
+		}
+		if sb.Len() >= 40 {
+			break
+		}
+	}
+	return strings.Trim(sb.String(), "-")
+}
+
+func (s *Session) mutSite(kind string, err error) string {
+	if s.faulted {
+		return s.site(kind) + ":" + slug(err)
+	}
+	return s.site(kind)
+}
+
+// mutRule names the rule for a failing write: after a fault has fired the
+// bounded-liveness rule of C08 applies.
+func (s *Session) mutRule(plain string) string {
+	if s.faulted {
+		return "post-fault-write-succeeds"
+	}
+	return plain
+}
 
 // Reopen drops the handle (as a process restart does) and opens a new one.
 func (s *Session) Reopen() error {
@@ -92,13 +168,18 @@ func (s *Session) Step(op kernel.Op) {
 	s.W.BeginOp(s.Proc, op)
 	firedBefore := totalFired(s.W)
 	var outcome string
+	s.inApply, s.opFiredBase = true, firedBefore
 	crashed, cut, pv := kernel.Protect(func() { outcome = s.apply(op, kind, client) })
+	s.inApply = false
 	if cut {
 		panic(kernel.CutSignal{})
 	}
 	if pv != nil {
 		s.violate("no-panic", s.fmtName()+"/"+shape(kind)+"/"+op.Kind, fmt.Sprintf("panic in %s: %v", op.String(), pv))
 		outcome = "panic"
+	}
+	if op.Kind != OReset && op.Kind != OReopen {
+		s.fresh = false // any call may have touched the cache
 	}
 	faultHere := totalFired(s.W) > firedBefore
 	if crashed {
@@ -120,6 +201,15 @@ func (s *Session) Step(op kernel.Op) {
 	s.W.State(s.M.Abstract() + fmt.Sprintf(" fresh=%v cache=%d", s.fresh, s.Cache))
 }
 
+func (s *Session) modelEmpty() bool {
+	for _, r := range s.M.Rings {
+		if len(r.Keys) > 0 {
+			return false
+		}
+	}
+	return true
+}
+
 func totalFired(w *kernel.World) int {
 	n := 0
 	for _, v := range w.Res.Fired {
@@ -132,6 +222,13 @@ func totalFired(w *kernel.World) int {
 // outcomes. It returns a short outcome string for the event log.
 func (s *Session) apply(op kernel.Op, kind, client string) string {
 	cid := []byte(client)
+	if op.Kind != OGen && kind != "" && len(s.M.Ring(kind, client).Keys) == 0 {
+		switch op.Kind {
+		case ODCur, ODRot, OCur, OAll:
+			s.touchedEmpty = true
+			s.W.Probe("op-on-never-generated-key")
+		}
+	}
 	now := time.Now()
 	switch op.Kind {
 	case OGen:
@@ -142,14 +239,17 @@ func (s *Session) apply(op kernel.Op, kind, client string) string {
 			return fmt.Sprintf("gen under fault err=%v", err)
 		}
 		if err != nil {
-			rule := "generate-succeeds"
-			if s.faulted {
-				rule = "post-fault-write-succeeds"
-			}
-			s.violate(rule, s.site(kind), fmt.Sprintf("%s: %v", op.String(), err))
+			s.violate(s.mutRule("generate-succeeds"), s.mutSite(kind, err), fmt.Sprintf("%s: %v", op.String(), err))
 			return "gen failed: " + err.Error()
 		}
-		v, err := s.H.ReadCurrent(kind, cid)
+		reader := s.H
+		if s.cached() {
+			reader = s.observer()
+		}
+		v, err := reader.ReadCurrent(kind, cid)
+		if totalFired(s.W) > firedBefore {
+			return fmt.Sprintf("gen ok, read under fault err=%v", err)
+		}
 		if err != nil {
 			s.violate("current-readable-after-generate", s.site(kind), fmt.Sprintf("%s: %v", op.String(), err))
 			s.lastMut = OGen
@@ -171,7 +271,7 @@ func (s *Session) apply(op kernel.Op, kind, client string) string {
 		}
 		if newest != nil && newest.Alive {
 			if err != nil {
-				s.violate("destroy-current-succeeds", s.site(kind), fmt.Sprintf("%s: %v", op.String(), err))
+				s.violate(s.mutRule("destroy-current-succeeds"), s.mutSite(kind, err), fmt.Sprintf("%s: %v", op.String(), err))
 				return "dcur failed"
 			}
 			newest.Alive = false
@@ -190,7 +290,9 @@ func (s *Session) apply(op kernel.Op, kind, client string) string {
 		}
 		listed, err := s.H.ListRotated()
 		if err != nil {
-			s.listingFailed("listr", err)
+			if !s.modelEmpty() && !s.touchedEmpty {
+				s.listingFailed("listr", err)
+			}
 			return "listr failed"
 		}
 		var mine []Listed
@@ -223,7 +325,7 @@ func (s *Session) apply(op kernel.Op, kind, client string) string {
 			return fmt.Sprintf("drot under fault err=%v target=%d", err, target.N)
 		}
 		if err != nil {
-			s.violate("destroy-rotated-succeeds", s.site(kind), fmt.Sprintf("%s listing idx=%d of %d: %v", op.String(), pick.Index, len(mine), err))
+			s.violate(s.mutRule("destroy-rotated-succeeds"), s.mutSite(kind, err), fmt.Sprintf("%s listing idx=%d of %d: %v", op.String(), pick.Index, len(mine), err))
 			return "drot failed"
 		}
 		target.Alive = false
@@ -231,7 +333,22 @@ func (s *Session) apply(op kernel.Op, kind, client string) string {
 		s.W.Probe("destroy-rotated")
 		return fmt.Sprintf("drot ok idx=%d key#%d", pick.Index, target.N)
 	case OCur, OAll, OListC, OListR:
-		// reads are covered by CheckAll after the step
+		// reads of generated keys are covered by CheckAll after the step;
+		// a read of a never-generated key may fail but must not panic
+		if (op.Kind == OCur || op.Kind == OAll) && len(s.M.Ring(kind, client).Keys) == 0 {
+			err, pv := Guard(func() error {
+				if op.Kind == OAll && HasReadAll(kind) {
+					_, e := s.H.ReadAll(kind, cid)
+					return e
+				}
+				_, e := s.H.ReadCurrent(kind, cid)
+				return e
+			})
+			if pv != nil {
+				s.violate("no-panic", s.fmtName()+"/"+shape(kind)+"/read-missing", fmt.Sprint(pv))
+			}
+			return fmt.Sprintf("read of never-generated key: err=%v", err)
+		}
 		return "read"
 	case OReset:
 		s.H.Reset()
@@ -246,14 +363,14 @@ func (s *Session) apply(op kernel.Op, kind, client string) string {
 		s.lastMut = OReopen
 		return "reopen"
 	case OWarm:
-		if s.Disk.Format == 1 {
+		if s.Disk.Format == 1 && !s.modelEmpty() {
 			err := s.H.KS.CacheOnStart()
 			if err != nil {
-				rule := "cache-warmup-succeeds"
+				rule, site := "cache-warmup-succeeds", s.fmtName()
 				if s.faulted {
-					rule = "post-fault-cache-warmup"
+					rule, site = "post-fault-cache-warmup", site+":"+slug(err)
 				}
-				s.violate(rule, s.fmtName(), err.Error())
+				s.violate(rule, site, err.Error())
 			}
 			s.fresh = false
 		}
@@ -271,6 +388,11 @@ func (s *Session) adopt(ring *MRing, v KeyVal, now time.Time) *MKey {
 	}
 	if prev := ring.Newest(); prev != nil {
 		prev.RotOut = now
+	}
+	if IsPair(ring.Kind) {
+		if err := pairMatches(v); err != nil {
+			s.violate("current-pair-consistent", s.site(ring.Kind), fmt.Sprintf("%s: halves of the generated pair do not belong together: %v", ringID(ring.Kind, ring.Client), err))
+		}
 	}
 	s.markerN++
 	k := &MKey{N: len(ring.Keys) + 1, Val: v, Alive: true, Gen: now,
@@ -309,16 +431,24 @@ func (s *Session) mapListed(ring *MRing, l Listed) *MKey {
 }
 
 func (s *Session) listingFailed(which string, err error) {
-	rule := "listing-succeeds"
-	if s.faulted {
-		rule = "post-fault-listing"
+	if s.touchedEmpty {
+		s.W.Probe("listing-fails-after-op-on-never-generated-key")
+		return
 	}
-	s.violate(rule, s.fmtName()+"/"+which, err.Error())
+	rule, site := "listing-succeeds", s.fmtName()+"/"+which
+	if s.faulted {
+		rule, site = "post-fault-listing", site+":"+slug(err)
+	}
+	s.violate(rule, site, err.Error())
 }
 
 // CheckAll evaluates the refinement invariants against the model.
 func (s *Session) CheckAll() {
 	strict := !s.cached() || s.fresh
+	if s.modelEmpty() {
+		return
+	}
+	defer func() { s.fresh = false }()
 	anyDead := false
 	for _, id := range s.M.RingIDs() {
 		ring := s.M.Rings[id]
@@ -327,6 +457,9 @@ func (s *Session) CheckAll() {
 		}
 		cid := []byte(ring.Client)
 		relaxed := s.relaxed[id]
+		if s.broken[id] {
+			continue // already reported as a mixture; nothing further is known about it
+		}
 		newest := ring.Newest()
 		alive := ring.AliveNewestFirst()
 		if !newest.Alive {
@@ -337,13 +470,14 @@ func (s *Session) CheckAll() {
 		err, pv := Guard(func() error { var e error; cur, e = s.H.ReadCurrent(ring.Kind, cid); return e })
 		if pv != nil {
 			s.violate("no-panic", s.fmtName()+"/"+shape(ring.Kind)+"/read-current", fmt.Sprint(pv))
+		} else if !strict {
+			// warm cache: the statement promises only that surviving keys that
+			// were offered stay offered (checked below on read-all)
 		} else if newest.Alive {
 			if err != nil {
 				s.violate("current-readable", s.site(ring.Kind), fmt.Sprintf("%s: read current: %v", id, err))
 			} else if !bytes.Equal(cur.Secret, newest.Val.Secret) {
-				if !(s.cached() && !s.fresh && contains(secrets(alive), cur.Secret)) {
-					s.violate("current-is-newest", s.site(ring.Kind), fmt.Sprintf("%s: current key is not the most recently generated surviving key", id))
-				}
+				s.violate("current-is-newest", s.site(ring.Kind), fmt.Sprintf("%s: current key is not the most recently generated surviving key", id))
 			} else if IsPair(ring.Kind) && !bytes.Equal(cur.Public, newest.Val.Public) {
 				s.violate("current-is-newest", s.site(ring.Kind), fmt.Sprintf("%s: public half of the current pair changed", id))
 			}
@@ -362,19 +496,27 @@ func (s *Session) CheckAll() {
 		}
 		want := secrets(alive)
 		if err != nil {
-			if len(alive) > 0 {
-				s.violate("survivors-offered", s.site(ring.Kind), fmt.Sprintf("%s: %d surviving key(s) but read-all fails: %v", id, len(alive), err))
+			if strict && len(alive) > 0 {
+				cause := "newest-alive"
+				if !newest.Alive {
+					cause = "newest-destroyed"
+				}
+				s.violate("survivors-offered", s.site(ring.Kind)+"/"+cause, fmt.Sprintf("%s: %d surviving key(s) but read-all fails: %v", id, len(alive), err))
 			}
-			continue
+			if strict {
+				continue
+			}
+			all = nil // warm cache: a failing read offers nothing
 		}
 		got := all
-		if relaxed {
-			got = s.stripResidue(ring, all)
-		}
-		// destroyed keys must never be offered
-		for _, k := range ring.Keys {
-			if !k.Alive && !k.Maybe && contains(all, k.Val.Secret) {
-				s.violate("destroyed-key-not-offered", s.site(ring.Kind), fmt.Sprintf("%s: key #%d was destroyed but is still offered", id, k.N))
+		// destroyed keys must never be offered (fault-free rings only: a fault
+		// may leave a second copy of a key behind, which a later destruction
+		// of that key does not remove; C08 does not speak about it)
+		if strict && !relaxed {
+			for _, k := range ring.Keys {
+				if !k.Alive && !k.Maybe && contains(all, k.Val.Secret) {
+					s.violate("destroyed-key-not-offered", s.site(ring.Kind), fmt.Sprintf("%s: key #%d was destroyed but is still offered", id, k.N))
+				}
 			}
 		}
 		off := s.offered[id]
@@ -382,7 +524,12 @@ func (s *Session) CheckAll() {
 			off = map[string]bool{}
 			s.offered[id] = off
 		}
-		if strict {
+		if strict && relaxed {
+			if !isSubsequence(want, all) {
+				s.violate("readable-before-still-readable", s.site(ring.Kind), fmt.Sprintf("%s: offered [%s], surviving keys newest-first are [%s]", id, hexs(all), hexs(want)))
+			}
+			s.noteResidue(ring, all)
+		} else if strict {
 			if !equalLists(got, want) {
 				s.violate("read-all-matches-model", s.site(ring.Kind), fmt.Sprintf("%s: offered [%s], surviving keys newest-first are [%s]", id, hexs(all), hexs(want)))
 			}
@@ -486,6 +633,22 @@ func clientOfV2(keyID string) string {
 		return string(parts[1])
 	}
 	return ""
+}
+
+// isSubsequence reports whether want occurs in all in order.
+func isSubsequence(want, all [][]byte) bool {
+	i := 0
+	for _, b := range all {
+		if i < len(want) && bytes.Equal(b, want[i]) {
+			i++
+		}
+	}
+	return i == len(want)
+}
+
+// noteResidue counts what kind of residue a relaxed ring shows.
+func (s *Session) noteResidue(ring *MRing, all [][]byte) {
+	s.stripResidue(ring, all)
 }
 
 // stripResidue removes what a fault may legitimately leave in an "all keys"
